@@ -185,6 +185,38 @@ let property_fails (hist : op list) tables tokens dcs (obs : string) : string op
     !fail
   | _ -> raise (Malformed "step")
 
+(* the clauses of the property that do not need the history (hence not the model's decoding of a byte
+   payload): every table's ranges sorted / disjoint / non-empty, and every per-DC answer = the restriction of the
+   implementation's OWN full answer to that datacenter (replicas are printed host.gen.dc.shard) *)
+let property_fails_indep tables tokens dcs (obs : string) : string option =
+  if obs = "panic" then Some "panic" else
+  match String.split_on_char '~' obs with
+  | _ :: _ :: tabs when List.length tabs = List.length tables ->
+    let fail = ref None in
+    List.iter (fun tab ->
+        if !fail = None then
+        match (try parse_table tab with _ -> raise (Malformed "table")) with
+        | None -> ()
+        | Some (ranges, lks) ->
+          if not (ranges_okb ranges) then fail := Some "ranges-not-sorted-disjoint"
+          else begin
+            if List.length lks <> List.length tokens then raise (Malformed "lookup-count");
+            List.iter (fun lk ->
+                if !fail = None && lk <> "n" then
+                  match String.split_on_char ':' lk with
+                  | [_; _; all; per] ->
+                    let per = String.split_on_char '/' per in
+                    if List.length per <> List.length dcs then raise (Malformed "dc-count");
+                    List.iter2 (fun d got ->
+                        let want = List.filter (fun r -> match String.split_on_char '.' r with
+                            | [_; _; dc; _] -> dc = hex_of_n d | _ -> raise (Malformed "replica")) (split ',' all) in
+                        if List.sort compare want <> sorted_reps got && !fail = None then
+                          fail := Some (Printf.sprintf "dc-list-not-restriction dc=%s of=%s" (hex_of_n d) all)) dcs per
+                  | _ -> raise (Malformed "lookup")) lks
+          end) tabs;
+    !fail
+  | _ -> raise (Malformed "step")
+
 (* the value-level event of a byte payload (C15_bytes_as_learn); an absent key is no event at all:
    it is represented by a refused payload, which changes nothing either *)
 let abstract_dop = function
@@ -230,8 +262,12 @@ let verdict case impl =
                | DOp _ -> false)
            then
              (* the implementation decoded this byte payload differently from the model: the history the
-                specification would be evaluated on is the MODEL's decoding, so no property verdict is possible *)
-             Printf.sprintf "diff step=%d decoder-divergence model=%s" i (dres_tag s o)
+                specification would be evaluated on is the MODEL's decoding, so only the history-independent
+                clauses of the property can be judged (they are, first); otherwise broken correspondence *)
+             (match (try Ok (property_fails_indep tables tokens dcs ob) with Malformed w -> Err w) with
+              | Err w -> Printf.sprintf "error malformed-observation step=%d %s" i w
+              | Ok (Some why) -> Printf.sprintf "viol step=%d %s" i why
+              | Ok None -> Printf.sprintf "diff step=%d decoder-divergence model=%s" i (dres_tag s o))
            else
              match (try Ok (property_fails hist tables tokens dcs ob) with Malformed w -> Err w) with
              | Err w -> Printf.sprintf "error malformed-observation step=%d %s" i w
